@@ -32,6 +32,9 @@ unchanged.  This module folds such edits back, on the syntax tree, so that the r
   * idiom            `next(iter(x))` -> `list(x)[0]`; `itemgetter(k)` / `attrgetter('a')` -> the lambda; `dict.fromkeys`.
                      `chain.from_iterable(xs)` -> `sum(xs, [])`; `chain(a, *xs)` -> `a + sum(xs, [])`.
   * accumulation     `t = t + v` -> `t += v`; `d[k] = d.get(k, 0) + v` -> `d[k] += v`.
+  * generator-helper a NEW generator function made of one for/if nest around one yield returns the generator expression;
+                     a comprehension over a comprehension is fused into one.
+  * memoised-helper  a NEW helper `if self._x is None: self._x = E` + `return self._x` (only writer of _x) returns E.
   * folded-closure   a function defined and only called inside a method is folded back at its calls.
   * renamed-symbol   a method / module function of the reference decomposition that is missing while an unknown one in
                      the same class / module has the same body digest gets its name back (parameters likewise).
@@ -657,6 +660,17 @@ class Canonicaliser:
                           for l in ast.walk(caller_fn))
             if not in_loop:
                 rename = {k: v for k, v in rename.items() if k in after}
+                # ... and not when the caller binds the name again (a loop target, an assignment) before reading it
+                for k in list(rename):
+                    later = sorted(((getattr(x, 'lineno', 0), getattr(x, 'col_offset', 0)), isinstance(x.ctx, ast.Store))
+                                   for x in ast.walk(caller_fn) if isinstance(x, ast.Name) and x.id == k and
+                                   (getattr(x, 'lineno', 0), getattr(x, 'col_offset', 0)) > (call.lineno, call.col_offset))
+                    if later and later[0][1] and isinstance(call, ast.Call) and \
+                            not any(isinstance(a_, ast.Assign) and any(isinstance(t_, ast.Name) and t_.id == k
+                                                                        for t_ in a_.targets)
+                                    and any(isinstance(y, ast.Name) and y.id == k and isinstance(y.ctx, ast.Load)
+                                            for y in ast.walk(a_.value)) for a_ in ast.walk(caller_fn)):
+                        rename.pop(k)
             if mode == 'assign' and isinstance(target, ast.Name):
                 rename.pop(target.id, None)     # the helper's own name for its result is the caller's name for it
         body = copy.deepcopy(strip_doc(helper.node.body))
@@ -808,6 +822,117 @@ class Canonicaliser:
                 return n
         T().visit(fn)
         return changed[0]
+
+    # ---------------------------------------------------------------- generator helpers
+    def generator_as_expression(self, hu):
+        """a NEW generator function that is one nest of `for` / `if` around a single `yield e` / `yield from it`
+        returns the equivalent generator expression instead (then folded at its calls like any one-expression helper)."""
+        fn = hu.node
+        body = strip_doc(fn.body)
+        gens = []
+        cur = body
+        elt = None
+        while True:
+            if len(cur) != 1:
+                return
+            st = cur[0]
+            if isinstance(st, ast.For) and not st.orelse:
+                gens.append(ast.comprehension(target=st.target, iter=st.iter, ifs=[], is_async=0))
+                cur = st.body
+            elif isinstance(st, ast.If) and not st.orelse and gens:
+                gens[-1].ifs.append(st.test)
+                cur = st.body
+            elif isinstance(st, ast.Expr) and isinstance(st.value, ast.Yield) and st.value.value is not None and gens:
+                elt = st.value.value
+                break
+            elif isinstance(st, ast.Expr) and isinstance(st.value, ast.YieldFrom) and gens:
+                gens.append(ast.comprehension(target=ast.Name(id='item_', ctx=ast.Store()), iter=st.value.value, ifs=[],
+                                              is_async=0))
+                elt = ast.Name(id='item_', ctx=ast.Load())
+                break
+            else:
+                return
+        if any(isinstance(x, (ast.Yield, ast.YieldFrom)) for g in gens for x in ast.walk(g)):
+            return
+        ret = ast.Return(value=ast.GeneratorExp(elt=elt, generators=gens))
+        ast.copy_location(ret, body[0])
+        for x in ast.walk(ret):
+            if not hasattr(x, 'lineno'):
+                ast.copy_location(x, body[0])
+        ast.fix_missing_locations(ret)
+        fn.body = [s_ for s_ in fn.body if s_ not in body] + [ret]
+        self.log.append(('generator-helper', hu.loc(), hu.qual))
+
+    def memoised_as_expression(self, hu):
+        """a NEW helper `if self._x is None: self._x = E` + `return self._x`, _x being written nowhere else (but None in a
+        constructor), returns E: the value it stands for, computed at the first use."""
+        fn = hu.node
+        body = strip_doc(fn.body)
+        if len(body) != 2 or not isinstance(body[0], ast.If) or body[0].orelse or len(body[0].body) != 1 or \
+                not isinstance(body[1], ast.Return) or body[1].value is None:
+            return
+        asg = body[0].body[0]
+        if not (isinstance(asg, ast.Assign) and len(asg.targets) == 1 and isinstance(asg.targets[0], ast.Attribute)
+                and isinstance(asg.targets[0].value, ast.Name) and asg.targets[0].value.id == 'self'):
+            return
+        slot = ast.unparse(asg.targets[0])
+        if ast.unparse(body[1].value) != slot or ast.unparse(body[0].test) not in (slot + ' is None', 'not ' + slot):
+            return
+        attr = asg.targets[0].attr
+        for m in self.P.mods.values():
+            for n in ast.walk(m.tree):
+                if isinstance(n, ast.Assign):
+                    for t in n.targets:
+                        if isinstance(t, ast.Attribute) and t.attr == attr and n is not asg and \
+                                not (isinstance(n.value, ast.Constant) and n.value.value is None):
+                            return
+                elif isinstance(n, (ast.AugAssign, ast.AnnAssign)) and isinstance(n.target, ast.Attribute) and \
+                        n.target.attr == attr and not (isinstance(n, ast.AnnAssign) and (
+                            n.value is None or (isinstance(n.value, ast.Constant) and n.value.value is None))):
+                    return
+        ret = ast.Return(value=asg.value)
+        ast.copy_location(ret, body[1])
+        fn.body = [s_ for s_ in fn.body if s_ not in body] + [ret]
+        self.log.append(('memoised-helper', hu.loc(), hu.qual))
+
+    def fuse_comprehensions(self, unit, fn):
+        """`(E(x) for x in (Y for .. ) if c(x))` -> `(E(Y) for .. if c(Y))`: a comprehension over a comprehension (left by
+        a folded iterator helper) is one comprehension; the inner binders must not clash with outer names."""
+        me = self
+
+        class T(ast.NodeTransformer):
+            def _comp(self, n):
+                self.generic_visit(n)
+                for _ in range(4):
+                    done = False
+                    for i, g in enumerate(n.generators):
+                        inner = g.iter
+                        if isinstance(inner, (ast.GeneratorExp, ast.ListComp)) and isinstance(g.target, ast.Name) and \
+                                not g.is_async:
+                            ib = {x.id for ig in inner.generators for x in ast.walk(ig.target) if isinstance(x, ast.Name)}
+                            outer_names = {x.id for x in ast.walk(n) if isinstance(x, ast.Name)} - \
+                                {x.id for x in ast.walk(inner) if isinstance(x, ast.Name)}
+                            if ib & outer_names:
+                                continue
+                            sub = Subst({g.target.id: inner.elt}, {})
+                            new_gens = list(n.generators[:i]) + [copy.deepcopy(x) for x in inner.generators]
+                            if g.ifs:
+                                new_gens[-1].ifs = list(new_gens[-1].ifs) + [sub.visit(copy.deepcopy(c)) for c in g.ifs]
+                            for later in n.generators[i + 1:]:
+                                new_gens.append(sub.visit(copy.deepcopy(later)))
+                            n.generators = new_gens
+                            for f in ('elt', 'key', 'value'):
+                                if hasattr(n, f):
+                                    setattr(n, f, sub.visit(copy.deepcopy(getattr(n, f))))
+                            ast.fix_missing_locations(n)
+                            me.log.append(('fused-comprehension', unit.loc(n), unit.qual))
+                            done = True
+                            break
+                    if not done:
+                        break
+                return n
+            visit_ListComp = visit_SetComp = visit_GeneratorExp = visit_DictComp = _comp
+        T().visit(fn)
 
     # ---------------------------------------------------------------- new constants
     def constants(self):
@@ -1621,6 +1746,7 @@ class Canonicaliser:
         """the rewritings that only look at one function."""
         self.plain_assignments(u, fn)
         self.closures_inline(u, fn)
+        self.fuse_comprehensions(u, fn)
         self.idioms(u, fn)
         self.accumulations(u, fn)
         self.unroll_literal_loops(u, fn)
@@ -1722,6 +1848,10 @@ class Canonicaliser:
         P = self.P
         units = [u for u in P.all_units(with_closures=False)]
         if self.new_callables:
+            for lst in self.new_callables.values():
+                for (_c, _m, hu) in lst:
+                    self.generator_as_expression(hu)
+                    self.memoised_as_expression(hu)
             for _ in range(3):
                 ch = False
                 for u in units:
